@@ -26,7 +26,7 @@ ASSUMPTIONS = ["FastAggregateVerify with individually valid keys that sum to the
                "Aggregate on 96-byte entries that do not decode: any raised exception is accepted, returned bytes are not"]
 R = params.BLS_R
 E2 = params.BLS_E2
-PERTS = ["sig-length", "extra-identity-key", "key-plus-torsion", "honest", "drop-signer", "dup-signer", "subst-key", "subst-message", "swap-messages", "subset-aggregate", "negated", "plus-torsion", "bitflip",
+PERTS = ["prefix-games", "sig-length", "extra-identity-key", "key-plus-torsion", "honest", "drop-signer", "dup-signer", "subst-key", "subst-message", "swap-messages", "subset-aggregate", "negated", "plus-torsion", "bitflip",
          "more-keys", "more-messages", "empty", "empty-infinity", "bad-key", "identity-key", "repeated-message", "repeated-key"]
 
 
@@ -36,7 +36,7 @@ def shards(tier):
 
 def required_classes(tier):
     out = ["av:" + p for p in PERTS if p not in ("identity-key",)] + ["fav:" + p for p in ("sig-length", "key-plus-torsion", "honest", "drop-signer", "dup-signer", "subst-key", "empty", "empty-infinity", "bad-key", "sk-and-r-sk", "negated", "other-message")]
-    out += ["agg:multiplicity", "agg:sum", "agg:permutation", "agg:bracketing", "agg:refuse", "agg:undecodable", "suite:basic", "suite:aug", "suite:pop", "n>=2"]
+    out += ["msg:starts-with-own-pk", "agg:multiplicity", "agg:sum", "agg:permutation", "agg:bracketing", "agg:refuse", "agg:undecodable", "suite:basic", "suite:aug", "suite:pop", "n>=2"]
     return out
 
 
@@ -64,6 +64,14 @@ def run(rec):
         sks = [rng.choice([rng.randrange(1, R), rng.randrange(1, 1 << 64), R - 1 - rng.randrange(0, 5)]) for _ in range(n)]
         msgs = [rng.randbytes(rng.choice([0, 1, 8, 32, 33, 64, 100])) + bytes([j]) for j in range(n)]
         pks = [bmon.register_key(sk) for sk in sks]
+        # messages that begin with (or are) the signer's own public key: the augmentation prefix must still be added
+        if (rec.shard + rd) % 2 == 0:
+            msgs[0] = pks[0] + msgs[0]
+            rec.case("msg:starts-with-own-pk", None, nontrivial=False)
+            if n >= 2:
+                msgs[-1] = pks[-1]
+        else:
+            pass
         sigs = [bmon.m_sign(suite, sk, m) for sk, m in zip(sks, msgs)]
         agg = MB.aggregate(sigs)
 
@@ -85,7 +93,11 @@ def run(rec):
         else:
             rec.case("agg:bracketing", None, nontrivial=False)
         # repeated and cancelling entries: the sum counts multiplicities (s + s = 2s, s + (-s) = identity)
-        for rep_list in ([sigs[0], sigs[0]], [sigs[0]] * 3, sigs + [sigs[j_] for j_ in range(n)], sigs + [sigs[-1]],
+        S0 = Z.dec_g2(sigs[0])
+        e1, e2 = Z.enc_g2(CG.endo(params.BLS_FP2, S0, 1)), Z.enc_g2(CG.endo(params.BLS_FP2, S0, 2))
+        # distinct signatures that share a coordinate: (beta*x, y) and (beta^2*x, y) lie in the subgroup too, and S + phi(S) + phi^2(S) = O
+        for rep_list in ([sigs[0], e1], [e1, sigs[0]], [sigs[0], e2], [sigs[0], e1, e2], [e1, e2] + sigs,
+                         [sigs[0], sigs[0]], [sigs[0]] * 3, sigs + [sigs[j_] for j_ in range(n)], sigs + [sigs[-1]],
                          [sigs[0], Z.enc_g2(E2.neg(Z.dec_g2(sigs[0])))], [inf_sig, sigs[0], inf_sig]):
             rec.case("agg:multiplicity", ("aggm", tuple(rep_list)), sample={"fn": "Aggregate", "suite": suite, "entries": len(rep_list), "distinct": len(set(rep_list))})
             call(S.Aggregate, list(rep_list))
@@ -154,6 +166,13 @@ def run(rec):
                 av(pert, pks, msgs, agg[:95])
                 av(pert, pks, msgs, agg + b"\x00")
                 av(pert, pks, msgs, b"")
+            elif pert == "prefix-games":
+                # the signer's key prepended to / stripped from a message while the aggregate stays: must not verify
+                M2 = list(msgs); M2[j] = pks[j] + msgs[j]
+                av(pert, pks, M2, agg)
+                if msgs[0][:48] == pks[0]:
+                    M3 = list(msgs); M3[0] = msgs[0][48:]
+                    av(pert, pks, M3, agg)
             elif pert == "more-keys":
                 av(pert, pks + [pk_x], msgs, agg)
             elif pert == "more-messages":
